@@ -610,6 +610,22 @@ func checkV1SharedWrites(c *Ctx, p *core.Prog) {
 		{core.RootMod, "(*License).MultipleMatch", []eng.Prov{eng.Shared}},
 		{core.RootMod, "(*License).NearestMatch", []eng.Prov{eng.Shared}},
 	}
+	// the roles of the guarded map and of the lazily built field (also when this rule group runs inside another check)
+	if clsT := p.Named(scPkg, "Classifier"); clsT != nil {
+		if vf, ok := core.UniqueField(clsT, func(t types.Type) bool { _, isMap := t.Underlying().(*types.Map); return isMap }); ok {
+			guardedMapField = vf
+			for i := 0; i < core.StructOf(clsT).NumFields(); i++ {
+				if f := core.StructOf(clsT).Field(i); f.Name() == vf {
+					if sf, ok := core.UniqueField(f.Type().Underlying().(*types.Map).Elem(), func(t types.Type) bool { return core.IsNamedType(t, ssPkg, "SearchSet") }); ok {
+						lazySetField = sf
+					}
+				}
+			}
+		}
+	}
+	if !c.R.Anchor(lazySetField != "" && guardedMapField != "", "stringclassifier.Classifier: guarded map and lazily built search set fields") {
+		return
+	}
 	allowed := func(v *eng.EffViolation) bool {
 		// guarded writes validated by R14.1..R14.3
 		if v.Kind == "store" && strings.HasSuffix(v.Construct, "."+lazySetField) && strings.Contains(v.Construct, "store field stringclassifier.") {
